@@ -5,54 +5,22 @@ import LndModel.C11.Model
 
 namespace LndModel.C11
 
-/-! ### cipher state: linear position of a (epoch, nonce) pair -/
+/-! ### cipher state -/
 
 /-- the nonce is always below the rotation interval -/
 def CipherState.WF (c : CipherState) : Prop := c.nonce < keyRotationInterval
-
-/-- number of encryptions since `InitializeKeyWithSalt` -/
-def CipherState.pos (c : CipherState) : Nat := c.epoch * keyRotationInterval + c.nonce
-
-def Packet.pos (p : Packet) : Nat := p.epoch * keyRotationInterval + p.nonce
 
 theorem init_wf (s k : Term) : (CipherState.init s k).WF := by
   simp [CipherState.init, CipherState.WF, keyRotationInterval]
 
 theorem advance_wf (c : CipherState) (h : c.WF) : c.advance.WF := by
-  simp only [CipherState.advance, CipherState.WF, keyRotationInterval] at *
+  simp only [CipherState.advance, CipherState.rotate, CipherState.WF, keyRotationInterval] at *
   by_cases hn : c.nonce + 1 = 1000 <;> simp [hn] <;> omega
-
-theorem advance_pos (c : CipherState) (_h : c.WF) : c.advance.pos = c.pos + 1 := by
-  simp only [CipherState.advance, CipherState.WF, CipherState.pos, keyRotationInterval] at *
-  by_cases hn : c.nonce + 1 = 1000 <;> simp [hn] <;> omega
-
-theorem advance_salt0 (c : CipherState) : c.advance.salt0 = c.salt0 := by
-  simp only [CipherState.advance]; split <;> rfl
-
-theorem advance_key0 (c : CipherState) : c.advance.key0 = c.key0 := by
-  simp only [CipherState.advance]; split <;> rfl
 
 theorem stateAt_wf (c : CipherState) (h : c.WF) (i : Nat) : (stateAt c i).WF := by
   induction i with
   | zero => exact h
   | succ n ih => exact advance_wf _ ih
-
-theorem stateAt_pos (c : CipherState) (h : c.WF) (i : Nat) : (stateAt c i).pos = c.pos + i := by
-  induction i with
-  | zero => simp [stateAt]
-  | succ n ih =>
-    show (stateAt c n).advance.pos = _
-    rw [advance_pos _ (stateAt_wf c h n), ih]; omega
-
-theorem stateAt_salt0 (c : CipherState) (i : Nat) : (stateAt c i).salt0 = c.salt0 := by
-  induction i with
-  | zero => rfl
-  | succ n ih => show (stateAt c n).advance.salt0 = _; rw [advance_salt0, ih]
-
-theorem stateAt_key0 (c : CipherState) (i : Nat) : (stateAt c i).key0 = c.key0 := by
-  induction i with
-  | zero => rfl
-  | succ n ih => show (stateAt c n).advance.key0 = _; rw [advance_key0, ih]
 
 theorem stateAt_add (c : CipherState) (a b : Nat) : stateAt (stateAt c a) b = stateAt c (a + b) := by
   induction b with
@@ -61,19 +29,100 @@ theorem stateAt_add (c : CipherState) (a b : Nat) : stateAt (stateAt c a) b = st
 
 theorem stateAt_two (c : CipherState) : stateAt c 2 = c.advance.advance := rfl
 
-/-- a well-formed state is determined by its base and its position -/
-theorem pos_epoch_nonce (c : CipherState) (h : c.WF) :
-    c.epoch = c.pos / keyRotationInterval ∧ c.nonce = c.pos % keyRotationInterval := by
-  simp only [CipherState.WF, CipherState.pos, keyRotationInterval] at *
+/-! ### key terms of different epochs / directions are different terms -/
+
+theorem ratchet_size_lt (s k : Term) (n : Nat) :
+    (ratchet s k n).2.size < (ratchet s k (n + 1)).2.size ∧
+    (ratchet s k n).1.size < (ratchet s k (n + 1)).1.size := by
+  have h1 : 0 < (ratchet s k n).1.size := by cases (ratchet s k n).1 <;> simp [Term.size]
+  have h2 : 0 < (ratchet s k n).2.size := by cases (ratchet s k n).2 <;> simp [Term.size]
+  simp only [ratchet, Term.size]
   omega
 
-/-- closed form of the `i`-th state: rotation exactly every `keyRotationInterval` uses -/
-theorem stateAt_epoch_nonce (c : CipherState) (h : c.WF) (i : Nat) :
-    (stateAt c i).epoch = c.epoch + (c.nonce + i) / keyRotationInterval ∧
+theorem ratchet_size_mono (s k : Term) (m n : Nat) (h : m < n) :
+    (ratchet s k m).2.size < (ratchet s k n).2.size := by
+  induction n with
+  | zero => omega
+  | succ n ih =>
+    have := (ratchet_size_lt s k n).1
+    by_cases hm : m = n
+    · subst hm; exact this
+    · have := ih (by omega); omega
+
+/-- within one direction, the key of every epoch is a different term -/
+theorem ratchet_key_inj (s k : Term) (m n : Nat) (h : (ratchet s k m).2 = (ratchet s k n).2) : m = n := by
+  rcases Nat.lt_trichotomy m n with hlt | heq | hgt
+  · have := ratchet_size_mono s k m n hlt; rw [h] at this; omega
+  · exact heq
+  · have := ratchet_size_mono s k n m hgt; rw [h] at this; omega
+
+theorem ratchet_size_congr (s k1 k2 : Term) (hk : k1.size = k2.size) (n : Nat) :
+    (ratchet s k1 n).1.size = (ratchet s k2 n).1.size ∧ (ratchet s k1 n).2.size = (ratchet s k2 n).2.size := by
+  induction n with
+  | zero => exact ⟨rfl, hk⟩
+  | succ n ih => simp only [ratchet, Term.size]; omega
+
+theorem ratchet_same_epoch_inj (s k1 k2 : Term) (n : Nat) (h : (ratchet s k1 n).2 = (ratchet s k2 n).2) :
+    k1 = k2 := by
+  induction n with
+  | zero => exact h
+  | succ n ih =>
+    simp only [ratchet] at h
+    injection h with _ h2
+    exact ih h2
+
+/-- the two directions of a session (same salt, different initial keys of equal
+    size) never share a key, whatever the epochs -/
+theorem ratchet_directions_distinct (s k1 k2 : Term) (hne : k1 ≠ k2) (hsz : k1.size = k2.size) (m n : Nat) :
+    (ratchet s k1 m).2 ≠ (ratchet s k2 n).2 := by
+  intro h
+  by_cases hmn : m = n
+  · subst hmn; exact hne (ratchet_same_epoch_inj s k1 k2 m h)
+  · have h1 := (ratchet_size_congr s k1 k2 hsz n).2
+    have h2 : (ratchet s k1 m).2.size = (ratchet s k1 n).2.size := by rw [h, h1]
+    rcases Nat.lt_or_gt_of_ne hmn with hlt | hgt
+    · have := ratchet_size_mono s k1 m n hlt; omega
+    · have := ratchet_size_mono s k1 n m hgt; omega
+
+
+/-- closed form of the state after `i` uses: the salt/key are the HKDF ratchet applied
+    `⌊(nonce₀ + i) / 1000⌋` times, the nonce is `(nonce₀ + i) mod 1000`. -/
+theorem stateAt_closed (c : CipherState) (h : c.WF) (i : Nat) :
+    (stateAt c i).salt = (ratchet c.salt c.key ((c.nonce + i) / keyRotationInterval)).1 ∧
+    (stateAt c i).key = (ratchet c.salt c.key ((c.nonce + i) / keyRotationInterval)).2 ∧
     (stateAt c i).nonce = (c.nonce + i) % keyRotationInterval := by
-  have hw := stateAt_wf c h i
-  have hp := stateAt_pos c h i
-  simp only [CipherState.WF, CipherState.pos, keyRotationInterval] at *
+  simp only [CipherState.WF, keyRotationInterval] at *
+  induction i with
+  | zero =>
+    have h0 : (c.nonce + 0) / 1000 = 0 := by omega
+    have h1 : (c.nonce + 0) % 1000 = c.nonce := by omega
+    rw [h0, h1]; exact ⟨rfl, rfl, rfl⟩
+  | succ n ih =>
+    obtain ⟨h1, h2, h3⟩ := ih
+    show (stateAt c n).advance.salt = _ ∧ (stateAt c n).advance.key = _ ∧ (stateAt c n).advance.nonce = _
+    simp only [CipherState.advance, CipherState.rotate, keyRotationInterval]
+    by_cases hn : (stateAt c n).nonce + 1 = 1000
+    · have he : (c.nonce + (n + 1)) / 1000 = (c.nonce + n) / 1000 + 1 := by omega
+      have hm : (c.nonce + (n + 1)) % 1000 = 0 := by omega
+      rw [he, hm]
+      simp only [hn, if_true, ratchet, h1, h2]
+      exact ⟨trivial, trivial, trivial⟩
+    · have he : (c.nonce + (n + 1)) / 1000 = (c.nonce + n) / 1000 := by omega
+      have hm : (c.nonce + (n + 1)) % 1000 = (stateAt c n).nonce + 1 := by omega
+      rw [he, hm]
+      simp only [hn, if_false, h1, h2]
+      exact ⟨trivial, trivial, trivial⟩
+
+/-- two uses of the same cipher stream with the same key term and the same nonce are the same use -/
+theorem stateAt_index_inj (c : CipherState) (h : c.WF) (i j : Nat)
+    (hk : (stateAt c i).key = (stateAt c j).key) (hn : (stateAt c i).nonce = (stateAt c j).nonce) :
+    i = j := by
+  obtain ⟨_, k1, n1⟩ := stateAt_closed c h i
+  obtain ⟨_, k2, n2⟩ := stateAt_closed c h j
+  rw [k1, k2] at hk
+  rw [n1, n2] at hn
+  have he := ratchet_key_inj _ _ _ _ hk
+  simp only [keyRotationInterval] at *
   omega
 
 /-! ### rendering and opening -/
@@ -387,19 +436,21 @@ theorem runFlushes_final (fs : List (Option Nat × Bool)) (s : Sender) :
   rw [hf.1, hf.2.1] at h1
   exact ⟨by simpa using h1, hf.1, hf.2.1, h2⟩
 
-theorem writeMessage_ok (s : Sender) (m : Msg) (hl : m.len ≤ maxPayload) (hh : s.hdr = []) (hb : s.body = []) :
-    writeMessage s m = .ok { cs := s.cs.advance.advance,
-                             hdr := render (s.cs.seal Term.empty (lenMsg m.len)),
-                             body := render (s.cs.advance.seal Term.empty m) } := by
-  unfold writeMessage
+theorem writeMessageL_ok (s : Sender) (m : Msg) (hl : m.len ≤ maxPayload) (hh : s.hdr = []) (hb : s.body = []) :
+    writeMessageL s m = .ok ({ cs := s.cs.advance.advance,
+                               hdr := render (s.cs.seal Term.empty (lenMsg m.len)),
+                               body := render (s.cs.advance.seal Term.empty m) },
+                             [s.cs.seal Term.empty (lenMsg m.len), s.cs.advance.seal Term.empty m]) := by
+  unfold writeMessageL
   have : ¬ m.len > maxPayload := by omega
   simp [this, hh, hb, encrypt]
 
-theorem writeMessage_inv (s s1 : Sender) (m : Msg) (h : writeMessage s m = .ok s1) :
+theorem writeMessageL_inv (s : Sender) (m : Msg) (r : Sender × List Packet) (h : writeMessageL s m = .ok r) :
     m.len ≤ maxPayload ∧ s.hdr = [] ∧ s.body = [] ∧
-    s1 = { cs := s.cs.advance.advance, hdr := render (s.cs.seal Term.empty (lenMsg m.len)),
-           body := render (s.cs.advance.seal Term.empty m) } := by
-  unfold writeMessage at h
+    r = ({ cs := s.cs.advance.advance, hdr := render (s.cs.seal Term.empty (lenMsg m.len)),
+           body := render (s.cs.advance.seal Term.empty m) },
+         [s.cs.seal Term.empty (lenMsg m.len), s.cs.advance.seal Term.empty m]) := by
+  unfold writeMessageL at h
   split at h
   · cases h
   · rename_i hl
@@ -412,6 +463,37 @@ theorem writeMessage_inv (s s1 : Sender) (m : Msg) (h : writeMessage s m = .ok s
         simp only [ne_eq, not_or, Decidable.not_not] at hf
         exact hf
       exact ⟨by omega, hf'.1, hf'.2, h.symm⟩
+
+theorem writeMessage_ok (s : Sender) (m : Msg) (hl : m.len ≤ maxPayload) (hh : s.hdr = []) (hb : s.body = []) :
+    writeMessage s m = .ok { cs := s.cs.advance.advance,
+                             hdr := render (s.cs.seal Term.empty (lenMsg m.len)),
+                             body := render (s.cs.advance.seal Term.empty m) } := by
+  unfold writeMessage
+  rw [writeMessageL_ok s m hl hh hb]
+
+theorem writeMessage_inv (s s1 : Sender) (m : Msg) (h : writeMessage s m = .ok s1) :
+    m.len ≤ maxPayload ∧ s.hdr = [] ∧ s.body = [] ∧
+    s1 = { cs := s.cs.advance.advance, hdr := render (s.cs.seal Term.empty (lenMsg m.len)),
+           body := render (s.cs.advance.seal Term.empty m) } := by
+  unfold writeMessage at h
+  split at h
+  · rename_i r hr
+    obtain ⟨a, b, c, d⟩ := writeMessageL_inv s m r hr
+    injection h with h
+    subst h
+    exact ⟨a, b, c, by rw [d]⟩
+  · cases h
+
+/-- a refused `WriteMessage` is refused because the message is too long or because
+    something is still buffered -/
+theorem writeMessageL_error (s : Sender) (m : Msg) (e : WErr) (h : writeMessageL s m = .error e) :
+    m.len > maxPayload ∨ s.hdr ≠ [] ∨ s.body ≠ [] := by
+  unfold writeMessageL at h
+  split at h
+  · rename_i hl; exact Or.inl hl
+  · split at h
+    · rename_i hf; exact Or.inr hf
+    · cases h
 
 /-- `WriteMessage` + any flush pattern per message puts exactly `encodeAll` on the wire. -/
 theorem sendAll_encodeAll (steps : List SendStep) : ∀ (s : Sender), s.hdr = [] → s.body = [] →
@@ -433,9 +515,7 @@ theorem sendAll_encodeAll (steps : List SendStep) : ∀ (s : Sender), s.hdr = []
       show stateAt (stateAt s.cs 2) (2 * rest.length) = _
       rw [stateAt_add]; congr 1; simp only [List.length_cons]; omega
 
-/-! ### the log of sealed packets: positions -/
-
-theorem seal_pos (c : CipherState) (ad : Term) (m : Msg) : (c.seal ad m).pos = c.pos := rfl
+/-! ### the log of sealed packets -/
 
 theorem mem_sealLog (ms : List Msg) : ∀ (c : CipherState) (p : Packet), p ∈ sealLog c ms →
     ∃ i m, ms[i]? = some m ∧
@@ -478,95 +558,173 @@ theorem sealLog_mem (ms : List Msg) : ∀ (c : CipherState) (i : Nat) (m : Msg),
       simp only [sealLog, List.mem_cons]
       exact ⟨Or.inr (Or.inr h1), Or.inr (Or.inr h2)⟩
 
-/-- strictly increasing positions along the log -/
+/-- entry `2i` of the log is the length prefix of message `i` sealed at use `2i`, entry `2i+1`
+    its payload sealed at use `2i+1` -/
+theorem sealLog_getElem (ms : List Msg) : ∀ (c : CipherState) (i : Nat),
+    (sealLog c ms)[2 * i]? = ms[i]?.map (fun m => (stateAt c (2 * i)).seal Term.empty (lenMsg m.len)) ∧
+    (sealLog c ms)[2 * i + 1]? = ms[i]?.map (fun m => (stateAt c (2 * i + 1)).seal Term.empty m) := by
+  induction ms with
+  | nil => intro c i; simp [sealLog]
+  | cons m0 ms ih =>
+    intro c i
+    cases i with
+    | zero => simp [sealLog, stateAt]
+    | succ j =>
+      obtain ⟨h1, h2⟩ := ih c.advance.advance j
+      rw [← stateAt_two] at h1 h2
+      simp only [stateAt_add] at h1 h2
+      have e1 : 2 * (j + 1) = (2 * j + 1) + 1 := by omega
+      have e2 : 2 * (j + 1) + 1 = (2 * j + 1 + 1) + 1 := by omega
+      have e3 : 2 + 2 * j = 2 * j + 1 + 1 := by omega
+      have e4 : 2 + (2 * j + 1) = 2 * j + 1 + 1 + 1 := by omega
+      rw [e3] at h1
+      rw [e4] at h2
+      refine ⟨?_, ?_⟩
+      · rw [e1]; simp only [sealLog, List.getElem?_cons_succ]; exact h1
+      · rw [e2]; simp only [sealLog, List.getElem?_cons_succ]; exact h2
+
+theorem sealLog_length (ms : List Msg) : ∀ (c : CipherState), (sealLog c ms).length = 2 * ms.length := by
+  induction ms with
+  | nil => intro c; rfl
+  | cons m ms ih => intro c; simp only [sealLog, List.length_cons, ih]; omega
+
+theorem mem_sealLog_wf (ms : List Msg) (c : CipherState) (hc : c.WF) (p : Packet) (h : p ∈ sealLog c ms) :
+    p.nonce < keyRotationInterval ∧ (∃ k, p.key = (stateAt c k).key ∧ p.nonce = (stateAt c k).nonce) ∧
+    p.ad = Term.empty := by
+  obtain ⟨i, m, _, hp⟩ := mem_sealLog ms c p h
+  rcases hp with hp | hp <;> subst hp
+  · exact ⟨stateAt_wf c hc _, ⟨_, rfl, rfl⟩, rfl⟩
+  · exact ⟨stateAt_wf c hc _, ⟨_, rfl, rfl⟩, rfl⟩
+
+/-- no two positions of the log carry the same key term and nonce -/
 theorem sealLog_pairwise (ms : List Msg) : ∀ (c : CipherState), c.WF →
-    (sealLog c ms).Pairwise (fun p q => p.pos < q.pos) ∧ ∀ p ∈ sealLog c ms, c.pos ≤ p.pos := by
+    (sealLog c ms).Pairwise (fun p q => ¬ (p.key = q.key ∧ p.nonce = q.nonce)) := by
   induction ms with
   | nil => intro c _; simp [sealLog]
   | cons m ms ih =>
     intro c hc
-    have hc1 := advance_wf c hc
-    have hc2 := advance_wf _ hc1
-    obtain ⟨ih1, ih2⟩ := ih c.advance.advance hc2
-    have p1 := advance_pos c hc
-    have p2 := advance_pos _ hc1
+    have hc2 := advance_wf _ (advance_wf c hc)
+    have tail : ∀ q ∈ sealLog c.advance.advance ms, ∃ k, 2 ≤ k ∧ q.key = (stateAt c k).key ∧
+        q.nonce = (stateAt c k).nonce := by
+      intro q hq
+      obtain ⟨_, ⟨k, h1, h2⟩, _⟩ := mem_sealLog_wf ms _ hc2 q hq
+      rw [← stateAt_two, stateAt_add] at h1 h2
+      exact ⟨2 + k, by omega, h1, h2⟩
     simp only [sealLog]
-    refine ⟨?_, ?_⟩
-    · refine List.Pairwise.cons ?_ (List.Pairwise.cons ?_ ih1)
-      · intro q hq
-        simp only [List.mem_cons] at hq
-        rcases hq with hq | hq
-        · subst hq; simp only [seal_pos]; omega
-        · have := ih2 q hq; simp only [seal_pos]; omega
-      · intro q hq
-        have := ih2 q hq; simp only [seal_pos]; omega
-    · intro p hp
-      simp only [List.mem_cons] at hp
-      rcases hp with hp | hp | hp
-      · subst hp; simp [seal_pos]
-      · subst hp; simp only [seal_pos]; omega
-      · have := ih2 p hp; omega
+    refine List.Pairwise.cons ?_ (List.Pairwise.cons ?_ (ih _ hc2))
+    · intro q hq ⟨hk, hn⟩
+      simp only [List.mem_cons] at hq
+      rcases hq with hq | hq
+      · subst hq
+        have := stateAt_index_inj c hc 0 1 hk hn
+        omega
+      · obtain ⟨k, hk2, e1, e2⟩ := tail q hq
+        have := stateAt_index_inj c hc 0 k (by rw [← e1]; exact hk) (by rw [← e2]; exact hn)
+        omega
+    · intro q hq ⟨hk, hn⟩
+      obtain ⟨k, hk2, e1, e2⟩ := tail q hq
+      have := stateAt_index_inj c hc 1 k (by rw [← e1]; exact hk) (by rw [← e2]; exact hn)
+      omega
 
-theorem mem_sealLog_wf (ms : List Msg) (c : CipherState) (hc : c.WF) (p : Packet) (h : p ∈ sealLog c ms) :
-    p.nonce < keyRotationInterval ∧ p.salt0 = c.salt0 ∧ p.key0 = c.key0 ∧ p.ad = Term.empty := by
-  obtain ⟨i, m, _, hp⟩ := mem_sealLog ms c p h
-  rcases hp with hp | hp <;> subst hp
-  · exact ⟨stateAt_wf c hc _, stateAt_salt0 c _, stateAt_key0 c _, rfl⟩
-  · exact ⟨stateAt_wf c hc _, stateAt_salt0 c _, stateAt_key0 c _, rfl⟩
+/-! ### arbitrary operation traces -/
 
-/-! ### key terms of different epochs / directions are different terms -/
+theorem sealLog_append (ms : List Msg) (m : Msg) : ∀ (c : CipherState),
+    sealLog c (ms ++ [m]) = sealLog c ms ++
+      [(stateAt c (2 * ms.length)).seal Term.empty (lenMsg m.len),
+       (stateAt c (2 * ms.length + 1)).seal Term.empty m] := by
+  induction ms with
+  | nil => intro c; simp [sealLog, stateAt]
+  | cons m0 ms ih =>
+    intro c
+    have e1 : 2 * (m0 :: ms).length = 2 + 2 * ms.length := by simp only [List.length_cons]; omega
+    have e2 : 2 * (m0 :: ms).length + 1 = 2 + (2 * ms.length + 1) := by simp only [List.length_cons]; omega
+    simp only [List.cons_append, sealLog, ih, e1, e2, ← stateAt_add, stateAt_two]
 
-theorem ratchet_size_lt (s k : Term) (n : Nat) :
-    (ratchet s k n).2.size < (ratchet s k (n + 1)).2.size ∧
-    (ratchet s k n).1.size < (ratchet s k (n + 1)).1.size := by
-  have h1 : 0 < (ratchet s k n).1.size := by cases (ratchet s k n).1 <;> simp [Term.size]
-  have h2 : 0 < (ratchet s k n).2.size := by cases (ratchet s k n).2 <;> simp [Term.size]
-  simp only [ratchet, Term.size]
-  omega
+theorem encodeAll_append (ms : List Msg) (m : Msg) : ∀ (c : CipherState),
+    encodeAll c (ms ++ [m]) = encodeAll c ms ++ encodeMsg (stateAt c (2 * ms.length)) m := by
+  induction ms with
+  | nil => intro c; simp [encodeAll, stateAt]
+  | cons m0 ms ih =>
+    intro c
+    have e1 : 2 * (m0 :: ms).length = 2 + 2 * ms.length := by simp only [List.length_cons]; omega
+    simp only [List.cons_append, encodeAll, ih, e1, ← stateAt_add, stateAt_two, List.append_assoc]
 
-theorem ratchet_size_mono (s k : Term) (m n : Nat) (h : m < n) :
-    (ratchet s k m).2.size < (ratchet s k n).2.size := by
-  induction n with
-  | zero => omega
-  | succ n ih =>
-    have := (ratchet_size_lt s k n).1
-    by_cases hm : m = n
-    · subst hm; exact this
-    · have := ih (by omega); omega
+/-- what every reachable sending-side state satisfies -/
+def TraceInv (c0 : CipherState) (t : Trace) : Prop :=
+  t.log = sealLog c0 t.accepted ∧
+  t.s.cs = stateAt c0 (2 * t.accepted.length) ∧
+  t.wire ++ (t.s.hdr ++ t.s.body) = encodeAll c0 t.accepted ∧
+  ∀ m ∈ t.accepted, m.len ≤ maxPayload
 
-/-- within one direction, the key of every epoch is a different term -/
-theorem ratchet_key_inj (s k : Term) (m n : Nat) (h : (ratchet s k m).2 = (ratchet s k n).2) : m = n := by
-  rcases Nat.lt_trichotomy m n with hlt | heq | hgt
-  · have := ratchet_size_mono s k m n hlt; rw [h] at this; omega
-  · exact heq
-  · have := ratchet_size_mono s k n m hgt; rw [h] at this; omega
+theorem traceInv_start (c0 : CipherState) : TraceInv c0 (Trace.start c0) := by
+  simp [TraceInv, Trace.start, sealLog, encodeAll, stateAt]
 
-theorem ratchet_size_congr (s k1 k2 : Term) (hk : k1.size = k2.size) (n : Nat) :
-    (ratchet s k1 n).1.size = (ratchet s k2 n).1.size ∧ (ratchet s k1 n).2.size = (ratchet s k2 n).2.size := by
-  induction n with
-  | zero => exact ⟨rfl, hk⟩
-  | succ n ih => simp only [ratchet, Term.size]; omega
+theorem traceInv_step (c0 : CipherState) (t : Trace) (op : Op) (h : TraceInv c0 t) :
+    TraceInv c0 (t.step op) := by
+  obtain ⟨h1, h2, h3, h4⟩ := h
+  cases op with
+  | write m =>
+    simp only [Trace.step]
+    split
+    · rename_i r hr
+      obtain ⟨a, b, c, d⟩ := writeMessageL_inv t.s m r hr
+      subst d
+      rw [b, c] at h3
+      refine ⟨?_, ?_, ?_, ?_⟩
+      · simp only [sealLog_append, h1, h2]
+        rfl
+      · simp only [h2, List.length_append, List.length_cons, List.length_nil]
+        show (stateAt c0 (2 * t.accepted.length)).advance.advance = _
+        rw [← stateAt_two, stateAt_add]; congr 1
+      · simp only [encodeAll_append, ← h3, h2, List.append_nil]
+        rfl
+      · intro x hx
+        rcases List.mem_append.mp hx with hx | hx
+        · exact h4 x hx
+        · simp only [List.mem_singleton] at hx; subst hx; exact a
+    · exact ⟨h1, h2, h3, h4⟩
+  | flush b e =>
+    simp only [Trace.step]
+    obtain ⟨g1, g2⟩ := flush_conserve t.s b e
+    refine ⟨h1, by rw [g2]; exact h2, ?_, h4⟩
+    rw [List.append_assoc, g1]; exact h3
 
-theorem ratchet_same_epoch_inj (s k1 k2 : Term) (n : Nat) (h : (ratchet s k1 n).2 = (ratchet s k2 n).2) :
-    k1 = k2 := by
-  induction n with
-  | zero => exact h
-  | succ n ih =>
-    simp only [ratchet] at h
-    injection h with _ h2
-    exact ih h2
+theorem traceInv_run (c0 : CipherState) (ops : List Op) : ∀ (t : Trace), TraceInv c0 t →
+    TraceInv c0 (runOps t ops) := by
+  induction ops with
+  | nil => intro t h; exact h
+  | cons op ops ih => intro t h; exact ih _ (traceInv_step c0 t op h)
 
-/-- the two directions of a session (same salt, different initial keys of equal
-    size) never share a key, whatever the epochs -/
-theorem ratchet_directions_distinct (s k1 k2 : Term) (hne : k1 ≠ k2) (hsz : k1.size = k2.size) (m n : Nat) :
-    (ratchet s k1 m).2 ≠ (ratchet s k2 n).2 := by
-  intro h
-  by_cases hmn : m = n
-  · subst hmn; exact hne (ratchet_same_epoch_inj s k1 k2 m h)
-  · have h1 := (ratchet_size_congr s k1 k2 hsz n).2
-    have h2 : (ratchet s k1 m).2.size = (ratchet s k1 n).2.size := by rw [h, h1]
-    rcases Nat.lt_or_gt_of_ne hmn with hlt | hgt
-    · have := ratchet_size_mono s k1 m n hlt; omega
-    · have := ratchet_size_mono s k1 n m hgt; omega
+theorem mkDh_comm (a b : Nat) : mkDh a b = mkDh b a := by
+  simp only [mkDh, Nat.min_comm, Nat.max_comm]
+
+theorem ratchet_size_ge (s k : Term) (n : Nat) : k.size ≤ (ratchet s k n).2.size := by
+  rcases Nat.eq_zero_or_pos n with h | h
+  · subst h; exact Nat.le_refl _
+  · exact Nat.le_of_lt (ratchet_size_mono s k 0 n h)
+
+theorem flush_noerr_clean (s : Sender) (b : Option Nat) (e : Bool) (h : (flush s b e).err = false) :
+    (flush s b e).st.hdr = [] ∧ (flush s b e).st.body = [] := by
+  unfold flush at *
+  by_cases hh : s.hdr = []
+  · by_cases hb : s.body = []
+    · simp [hh, hb]
+    · simp only [hh, if_true, hb, if_false, Bool.false_eq_true] at h ⊢
+      have := wwrite_noerr _ _ _ h
+      simp [this]
+  · simp only [hh, if_false] at h ⊢
+    by_cases he : (wwrite b e s.hdr.length).2.1 = true
+    · simp [he] at h
+    · have he' : (wwrite b e s.hdr.length).2.1 = false := by simpa using he
+      have hn := wwrite_noerr _ _ _ he'
+      by_cases hb : s.body = []
+      · simp [he', hb, hn]
+      · simp only [he', hb, if_false, Bool.false_eq_true] at h ⊢
+        have := wwrite_noerr _ _ _ h
+        simp [this, hn]
+
+theorem flush_none_budget (s : Sender) (e : Bool) : (flush s none e).budget = none := by
+  unfold flush
+  by_cases hh : s.hdr = [] <;> by_cases hb : s.body = [] <;> simp [hh, hb, wwrite_none]
 
 end LndModel.C11
